@@ -22,16 +22,6 @@ Inductive case :=
 | KDnsResp (o : opts) (c : client) (opcode qtype qname : text) (answers : list text) (rcode : text) (out : text)
 | KDnsErr (o : opts) (c : client) (opcode qtype qname msg : text) (out : text).
 
-(* contract of mitmproxy_rs.syntax_highlight.highlight: the chunks concatenate to its input *)
-Definition pm_ok (m : pmsg) : bool :=
-  match pm_chunks m with
-  | [] => true
-  | cs => text_eqb (concat (map snd cs)) (prettify_message m)
-  end.
-
-Definition resp_ok (x : resp) : bool :=
-  pm_ok (rs_msg x) && match rs_size x with Some s => ok_text s | None => true end.
-
 Definition same (t : ttext) (out : text) : bool := text_eqb (flatten t) out.
 
 Definition check_case (c : case) : bool :=
